@@ -313,6 +313,15 @@ NUMS = [(XSD + "integer", ["0", "5", "-5", "+5", "007", "-0", "12345678901234567
         (XSD + "decimal", ["1.5", ".5", "-0.0", "+.5", "1.50", "00.10", "0.000000001", "5", "5.", "1e3"]),
         (XSD + "double", ["1e0", "1.5E-3", ".5e3", "1.E5", "+1.0e+2", "-0e0", "1.5", "INF", "NaN", "1e400"]),
         (XSD + "boolean", ["true", "false", "1", "0", "TRUE"])]
+NUM_FAMILIES = [(XSD + "decimal", ["1.0", "1.00", "1.000", "+1.0", "01.0", "1.0000"]),
+                (XSD + "decimal", ["0.0", "-0.0", ".0", "0.00", "+0.0", "00.0"]),
+                (XSD + "decimal", ["2.5", "2.50", "+2.5", "02.5", "2.500"]),
+                (XSD + "decimal", [".5", "0.5", "0.50", "+.5", "-.5", "-0.50"]),
+                (XSD + "integer", ["1", "+1", "01", "001"]),
+                (XSD + "integer", ["0", "-0", "+0", "00"]),
+                (XSD + "integer", ["-7", "-07", "-007"]),
+                (XSD + "double", ["1e0", "1E0", "1.0e0", "+1e0", "10e-1", "1.0E0", "1e+0", ".1e1"]),
+                (XSD + "double", ["0e0", "-0e0", "0.0e0", "0E1", "-0.0E0"])]
 DTS = [XSD + "string", XSD + "date", "http://example.org/dt", XSD + "anyURI", XSD + "token", "http://example.org/dt?a=1&b=2",
        "x-types.v2:int", "svn+ssh://example.org/types#t", "z39.50s://example.org/dt"]
 TWIN_DIRS = ["http://example.org/other/", "http://example.org/base/sub/", "http://example.org/", "http://other.example/a/b/",
@@ -400,6 +409,30 @@ def gen_quads(rng, dataset, size):
         s, g = rng.choice(subjects), rng.choice(graphs)
         for k in range(1, rng.randint(1, 3) + 1):
             quads.append([s, ["I", RDF + "_%d" % k], obj(), g])
+    if rng.random() < 0.25:     # one number, several spellings, in one document (1.0 / 1.00 / +1.0 …: distinct literals or not, as rdflib's terms say)
+        dt, fam = rng.choice(NUM_FAMILIES)
+        s, p, g = rng.choice(subjects), ["I", gen_pred(rng)], rng.choice(graphs)
+        for lex in rng.sample(fam, rng.randint(2, min(4, len(fam)))):
+            quads.append([s if rng.random() < 0.7 else rng.choice(subjects), p if rng.random() < 0.8 else ["I", gen_pred(rng)],
+                          ["L", lex, dt, None], g if rng.random() < 0.7 else rng.choice(graphs)])
+        if rng.random() < 0.3:  # the same value in the other numeric types
+            for dt2, lex in rng.sample([(XSD + "integer", "1"), (XSD + "decimal", "1.0"), (XSD + "double", "1e0"), (XSD + "double", "1.0E0"),
+                                        (XSD + "integer", "0"), (XSD + "decimal", "0.0"), (XSD + "double", "0e0")], 3):
+                quads.append([s, p, ["L", lex, dt2, None], g])
+    if rng.random() < 0.3:      # a typed node with node objects nested in it that use the same predicates (scoped contexts, nested elements)
+        g, s = rng.choice(graphs), rng.choice(subjects)
+        p1, p2, pk = ["I", gen_pred(rng)], ["I", gen_pred(rng)], ["I", gen_pred(rng)]
+        b1, b2 = ["B", "s0"], ["B", "s1"]
+        quads.append([s, ["I", RDF + "type"], ["I", rng.choice(CLASSES)], g])
+        quads += [[s, p1, gen_literal(rng), g], [s, pk, b1, g], [b1, p1, gen_literal(rng), g], [b1, p2, obj(), g]]
+        if rng.random() < 0.6:
+            quads += [[b1, pk, b2, g], [b2, p1, gen_literal(rng), g]]
+            if rng.random() < 0.4:
+                quads.append([b2, p2, obj(), g])
+        if rng.random() < 0.4:
+            quads.append([b1, ["I", RDF + "type"], ["I", rng.choice(CLASSES)], g])
+    if rng.random() < 0.15:     # the empty list as object (and, rarely, rdf:nil as subject)
+        quads.append([rng.choice(subjects), ["I", gen_pred(rng)], ["I", RDF + "nil"], rng.choice(graphs)])
     # collections
     for li in range(rng.choice([0, 0, 1, 1, 2])):
         g = rng.choice(graphs)
@@ -1341,7 +1374,7 @@ def _select_model_obs(case, out):
 # ------------------------------------------------------------------ shrinking, findings
 
 ALL_FEATURES = ["rel_iri", "dot_segments", "iri_uchar", "pname", "pnlocal_esc", "a_keyword", "shorthand", "dquote", "long_string",
-                "str_escapes", "collection", "nest_bnode", "anon_subject", "object_lists", "semi_repeat", "semi_trailing",
+                "str_escapes", "collection", "empty_collection", "nest_bnode", "anon_subject", "object_lists", "semi_repeat", "semi_trailing",
                 "split_subject", "split_graph", "default_braces", "graph_keyword", "kw_case", "no_last_dot", "odd_split",
                 "declare_prefix", "kw_prefix", "rebase", "sparql_prefix", "sparql_base", "base_directive", "tight", "tight_dot", "odd_ws",
                 "comments", "crlf", "cr_eol", "no_final_eol", "leading_comment", "fancy_labels", "min_ws",
